@@ -113,6 +113,10 @@ Fixpoint raw_output (w : fwriter) (ops : list wop) : list byte :=
       end
   end.
 Definition is_sync (o : wop) : bool := match o with WWrite _ _ => false | _ => true end.
+Definition em_of (o : wop) : emission := match o with WWrite _ e | WFlush e | WClose e => e end.
+(* the last operation of a history was a Flush or Close *)
+Definition last_is_sync (ops : list wop) : bool :=
+  match rev ops with o :: _ => is_sync o | [] => false end.
 
 (* ---------- sources (io.Reader, optionally io.ByteReader) ---------- *)
 Inductive rstatus := RNil | REOF | RErr.
@@ -204,7 +208,7 @@ Fixpoint sr_run (st : sreader) (qs : list req) : list (list byte * rstatus) :=
 Definition src_rest (s : source) : list byte := concat (s_chunks s).
 Definition sr_rest (st : sreader) : list byte :=
   match sr_src st with
-  | Some s => src_rest s ++ compression_read_tail
+  | Some s => src_rest s ++ skipn (sr_pos st) compression_read_tail
   | None => skipn (sr_pos st) compression_read_tail
   end.
 
